@@ -47,7 +47,7 @@ def run(chk):
                 "distinct_nontrivial": len({json.dumps(s, sort_keys=True) for s in fs + hs + scripts}),
                 "rule": "forwarding-client fault scripts (Metrics event: forwarded / acknowledged / attempts / opened sessions / pendingAck and leftover gauges against the spec's counters), hybrid-buffer scripts (input, consumed, leftover, dropped, pending, persistent chunks and bytes, queued gauges, io errors after every shutdown) and end-to-end histories (input passed + dropped = lines, pipeline passed + dropped = input passed, per-host attribution, chunk balance accepted + recovered = consumed + leftover + dropped + pending, acknowledged = consumed <= upstream ACKs, forwarded <= chunks the upstream saw, persistent gauge = files on disk); label attribution: every order of 3 and 4 labelled transforms (drop by level x2, redactEmail, parseTime) x every assignment of %d label names x 24 records over 2 metric-key values, labelled count and bytes per (label, key) against the interpretation of the program in LabelsTrace" % (3 if thorough else 2),
                 "samples": [fs[0], scripts[0]]})
-    chk.assumptions += ["records dropped by extraction transforms inside the input (no counter exists) are not exercised by the end-to-end configuration",
+    chk.assumptions += ["records dropped by extraction transforms inside the input are exercised at component level (LabelsTrace Balance), not by the end-to-end configuration",
                         "a rejection is a violation only if reproduced on a re-run"]
 
 
